@@ -56,7 +56,7 @@ def build_harness(name="default", defines=(), harness="vh.c", san=True, cov=Fals
     os.makedirs(bdir)
     cflags = ["clang", "-std=gnu99", "-g", "-O1", "-fno-omit-frame-pointer", "-D" + GUARD, "-w"]
     if san:
-        cflags += ["-fsanitize=address,undefined", "-fno-sanitize-recover=undefined"]
+        cflags += ["-fsanitize=address,undefined", "-fno-sanitize=alignment", "-fno-sanitize-recover=undefined"]
     if cov:
         cflags += ["-fprofile-instr-generate", "-fcoverage-mapping"]
     cflags += ["-D" + d for d in defines]
@@ -294,8 +294,12 @@ def replay(exe, behs, preamble, name, nproc=None, keep=False):
     env["ASAN_OPTIONS"] = "detect_leaks=0:abort_on_error=0:exitcode=77:allocator_may_return_null=1:symbolize=0"
     env["UBSAN_OPTIONS"] = "halt_on_error=1:print_stacktrace=0:symbolize=0:exitcode=76"
 
+    def sib(fn, kind):
+        d, b = os.path.split(fn)
+        return os.path.join(d, kind + b[2:])
+
     def run(fn):
-        with open(fn) as fi, open(fn.replace("in", "out"), "w") as fo, open(fn.replace("in", "err"), "w") as fe:
+        with open(fn) as fi, open(sib(fn, "out"), "w") as fo, open(sib(fn, "err"), "w") as fe:
             r = subprocess.run([exe], stdin=fi, stdout=fo, stderr=fe, env=env)
         return r.returncode
 
@@ -308,7 +312,7 @@ def replay(exe, behs, preamble, name, nproc=None, keep=False):
     for fn in files:
         cur = None
         steps = []
-        with open(fn.replace("in", "out"), errors="replace") as f:
+        with open(sib(fn, "out"), errors="replace") as f:
             for ln in f:
                 if ln.startswith("B "):
                     cur = int(ln[2:])
@@ -327,7 +331,7 @@ def replay(exe, behs, preamble, name, nproc=None, keep=False):
         raise Infra("harness output incomplete (see %s)" % rdir)
     if not keep:
         for fn in files:
-            os.remove(fn.replace("in", "out"))
+            os.remove(sib(fn, "out"))
     return results
 
 
